@@ -662,28 +662,28 @@ inductive ApiOut
   | text (s : String)           -- the result (rendered)
 deriving DecidableEq, Repr, Inhabited
 
-/-- the unchanged code (error.go catchPanic, value.go IsNaN/toValue/MarshalJSON, type_function.go
-    CallerLocation, otto.go Call) -/
+/-- the code (error.go catchPanic, value.go IsNaN/toValue, type_function.go CallerLocation,
+    otto.go Object.MarshalJSON and Otto.Call) -/
 def apiModel : ApiCase → ApiOut
-  | .runThrowToStringThrows => .goPanic       -- catchPanic: caught.string() inside the deferred recover throws again
-  | .runThrowUnconvertible => .goPanic
-  | .badIsNaN => .goPanic                     -- IsNaN has no catchPanic
+  | .runThrowToStringThrows => .errPlain      -- catchPanic keeps the second exception inside: errors.New("[object Object]")
+  | .runThrowUnconvertible => .errPlain
+  | .badIsNaN => .text "false"                -- catchPanic around the conversion; result stays false
   | .badToString => .errClass "RangeError"
   | .badToInteger => .errClass "RangeError"
   | .badToFloat => .errClass "RangeError"
   | .badToBoolean => .text "true"
   | .badString => .text ""
   | .badClass => .text "Object"
-  | .callerLocationNoScript => .goPanic       -- f.runtime.scope.outer is nil
+  | .callerLocationNoScript => .text "<unknown>"   -- scope.outer == nil: frame{}.location()
   | .callerLocationScript => .text "<anonymous>:1:1"
-  | .setNilObject => .goPanic                 -- toValue: `case *Object: … value.object`
-  | .toValueNilObject => .goPanic
-  | .argNilObject => .goPanic
+  | .setNilObject => .text "undefined"        -- toValue: `case *Object: if value == nil { return Value{} }`
+  | .toValueNilObject => .text "undefined"
+  | .argNilObject => .text "undefined"
   | .toValueNilValue => .text "undefined"
-  | .marshalFunction => .text "undefined"     -- JSON.stringify gives undefined; resultVal.String()
+  | .marshalFunction => .text "null"          -- JSON.stringify gave undefined -> "null"
   | .marshalObjectWithFunction => .text "{\"b\":1}"
   | .marshalUndefined => .text "null"
-  | .callTwoStatements => .text "F/f7"        -- source+"()" parses to two statements; the first is a call: f(7), g never
+  | .callTwoStatements => .text "G/fundefined,g7"   -- len(program.body) != 1: general path
   | .callTwoStatementsThis => .text "G/fundefined,g7"
   | .callExprStatement => .text "G/g7"
 
